@@ -46,6 +46,7 @@ OP_SPACE = {
     'restrict': ['none', 'variety_list', 'booster', 'preamp', 'booster+preamp', 'variety_list+booster'],
     'graph': ['P2', 'P2_inline', 'P2_fused'],
     'amp_voa': [0.0, 2.5],
+    'band_spacing': [None, 37.5e9, 100e9],     # design band of the ROADM degrees with another channel spacing than SI
     'order': ['01', '10'],
 }
 TABLES = {
@@ -99,6 +100,9 @@ def topology(case, lib):
     r = restriction_lists(lib, case['restrict'])
     rp = {s: {'params': {'restrictions': {'preamp_variety_list': r['preamp'], 'booster_variety_list': r['booster']}}}
           for s in 'AB'}
+    if case.get('band_spacing'):
+        for s in 'AB':
+            rp[s]['params']['design_bands'] = [{'f_min': 191.3e12, 'f_max': case['f_max'], 'spacing': case['band_spacing']}]
     amp = {'type': 'Edfa'}
     if r['variety_list'] is not None:
         amp['variety_list'] = r['variety_list']
@@ -179,7 +183,11 @@ def run_one(case):
     lo, hi, step = span.delta_power_range_db
     ext = span.target_extended_gain
     pref = si.power_dbm
-    pref_tot = pref + 10 * math.log10(automatic_nch(si.f_min, si.f_max, si.spacing))
+    if case.get('band_spacing') and not si.use_si_channel_count_for_design:
+        # the design load is counted on the design band of the degree
+        pref_tot = pref + 10 * math.log10(automatic_nch(191.3e12, case['f_max'], case['band_spacing']))
+    else:
+        pref_tot = pref + 10 * math.log10(automatic_nch(si.f_min, si.f_max, si.spacing))
     band = (si.f_min, si.f_max)
     rlists = restriction_lists(lib, case['restrict'])
     tags = {}
